@@ -153,5 +153,6 @@ func main() {
 		genBuf(p, *out)
 		genRead(p, *out)
 		genGetAny(p, *out)
+		genHygiene(p, *out)
 	}
 }
